@@ -403,6 +403,12 @@ class TextXVisitor(RRELVisitor):
             self.grammar_parser.dprint("RESOLVING MODEL PARSER: second_pass")
 
         self._resolve_rule_refs(self.grammar_parser, model_parser)
+
+        # The comments model was taken from the Comment rule before rule
+        # references were resolved: a Comment rule that is a plain reference
+        # to another rule (`Comment: LineComment;`) is still a RuleCrossRef.
+        if model_parser.comments_model is not None and "Comment" in model_parser.metamodel:
+            model_parser.comments_model = model_parser.metamodel["Comment"]._tx_peg_rule
         self._determine_rule_types(model_parser.metamodel)
         self._resolve_cls_refs(self.grammar_parser, model_parser)
 
